@@ -38,12 +38,22 @@ Section LazyModule.
     values : attrs;                   (* instance attributes *)
     in_init : bool;                   (* self._in_init *)
     fired : list (list (string * option V))
-       (* one entry per call of init_modules: the values of the constructor's
-          parameters it saw, in parameter order *)
+       (* one entry per CALL of init_modules: the values of the constructor's
+          parameters it saw, in parameter order (whether or not it then raised) *)
   }.
+
+  (* What happened: the statement completed, or an exception propagated to the caller.
+     Either way the object exists afterwards in the given state (for the constructor:
+     a raise means the caller never gets the object). *)
+  Inductive outcome := Done (s : mstate) | Raised (s : mstate).
+  Definition state_of (o : outcome) : mstate := match o with Done s => s | Raised s => s end.
+  Definition is_raised (o : outcome) : bool := match o with Done _ => false | Raised _ => true end.
 
   Variable params : list string.      (* signature(self.__init__).parameters *)
   Variable lazy_attrs : list string.  (* cls.LAZY_ATTRS *)
+  (* does the subclass's init_modules accept this configuration?  (StypeEncoder.init_modules
+     raises ValueError for an inadmissible na_strategy, the encodings for an odd out_size, ...) *)
+  Variable init_ok : list (string * option V) -> bool.
 
   Definition snapshot (a : attrs) : list (string * option V) :=
     map (fun k => (k, lookup a k)) params.
@@ -56,50 +66,55 @@ Section LazyModule.
   Definition validate (s : mstate) : option unit :=
     if is_fully_specified s then Some tt else None.
 
-  (* _init_modules(): validate(); init_modules() *)
-  Definition init_modules_ (s : mstate) : option mstate :=
+  (* _init_modules(): validate(); init_modules() -- the latter may raise, after
+     _missing_attrs has already been emptied by the caller *)
+  Definition init_modules_ (s : mstate) : outcome :=
     match validate s with
-    | None => None
-    | Some _ => Some {| missing := missing s; values := values s; in_init := in_init s;
-                        fired := fired s ++ [snapshot (values s)] |}
+    | None => Raised s
+    | Some _ =>
+        let s' := {| missing := missing s; values := values s; in_init := in_init s;
+                     fired := fired s ++ [snapshot (values s)] |} in
+        if init_ok (snapshot (values s)) then Done s' else Raised s'
     end.
 
   (* __setattr__(key, value) *)
-  Definition setattr (s : mstate) (k : string) (v : option V) : option mstate :=
+  Definition setattr (s : mstate) (k : string) (v : option V) : outcome :=
     let s1 := {| missing := missing s; values := bind (values s) k v; in_init := in_init s;
                  fired := fired s |} in
     match v with
-    | None => Some s1
+    | None => Done s1
     | Some _ =>
         if mem k (missing s1) then
           let s2 := {| missing := remove_key k (missing s1); values := values s1;
                        in_init := in_init s1; fired := fired s1 |} in
-          if negb (in_init s2) && is_fully_specified s2 then init_modules_ s2 else Some s2
-        else Some s1
+          if negb (in_init s2) && is_fully_specified s2 then init_modules_ s2 else Done s2
+        else Done s1
     end.
 
-  Fixpoint setattrs (s : mstate) (kvs : list (string * option V)) : option mstate :=
+  (* a caller that catches exceptions and goes on assigning: the object's state *)
+  Fixpoint setattrs (s : mstate) (kvs : list (string * option V)) : mstate :=
     match kvs with
-    | [] => Some s
-    | (k, v) :: r => match setattr s k v with Some s' => setattrs s' r | None => None end
+    | [] => s
+    | (k, v) :: r => setattrs (state_of (setattr s k v)) r
     end.
 
-  (* Module.__init__ with positional args: they are zipped with the parameter names *)
-  Definition construct (args : list (option V)) : option mstate :=
+  (* Module.__init__ with positional args: they are zipped with the parameter names;
+     nothing fires inside the loop (_in_init), _init_modules runs at the end if complete *)
+  Definition construct (args : list (option V)) : outcome :=
     let s0 := {| missing := lazy_attrs; values := []; in_init := true; fired := [] |} in
-    match setattrs s0 (combine params args) with
-    | None => None
-    | Some s1 =>
-        let s2 := {| missing := missing s1; values := values s1; in_init := false; fired := fired s1 |} in
-        if is_fully_specified s2 then init_modules_ s2 else Some s2
-    end.
+    let s1 := setattrs s0 (combine params args) in
+    let s2 := {| missing := missing s1; values := values s1; in_init := false; fired := fired s1 |} in
+    if is_fully_specified s2 then init_modules_ s2 else Done s2.
 
   (* every guarded entry point: __call__, named_parameters, named_children,
-     named_modules, _apply (hence .to/.eval/.parameters ...) *)
+     named_modules, _apply (hence .to/.eval/.parameters ...): the validate() guard *)
   Definition use (s : mstate) : option unit := validate s.
 
+  (* the configurations init_modules completed with (what the module is built from) *)
+  Definition built (s : mstate) : list (list (string * option V)) := filter init_ok (fired s).
+
   (* later assignments `obj.key = value` *)
-  Definition run (s : mstate) (ops : list (string * option V)) : option mstate := setattrs s ops.
+  Definition run (s : mstate) (ops : list (string * option V)) : mstate := setattrs s ops.
 
   (* an assignment of None to a lazy attribute that has already been supplied
      ("clobbering"): the key stays out of the missing set although it reads None *)
@@ -111,12 +126,20 @@ Section LazyModule.
                    | None => mem k lazy_attrs && negb (mem k (missing s))
                    | Some _ => false
                    end in
-        if bad then false
-        else match setattr s k v with Some s' => clobber_free s' r | None => true end
+        if bad then false else clobber_free (state_of (setattr s k v)) r
     end.
+
+  (* the statements of C12 about lazily configured modules use these two: *)
+  Variable vals : string -> option V.
+  (* an assignment agrees with the target configuration, or assigns None to a lazy attribute *)
+  Definition consistent (kv : string * option V) : Prop :=
+    snd kv = vals (fst kv) \/ (snd kv = None /\ mem (fst kv) lazy_attrs = true).
+  (* the configuration init_modules sees when every parameter holds its target value *)
+  Definition target : list (string * option V) := map (fun k => (k, vals k)) params.
 End LazyModule.
 
 Arguments missing {V}. Arguments values {V}. Arguments in_init {V}. Arguments fired {V}.
+Arguments Done {V}. Arguments Raised {V}. Arguments state_of {V}. Arguments is_raised {V}.
 
 (* --------------------------------------------------------------------------
    StypeWiseFeatureEncoder *)
@@ -128,6 +151,10 @@ Section StypeWise.
   Variable supported : Enc -> list stype.
 
   Definition stype_in (s : stype) (l : list stype) : bool := existsb (stype_eqb s) l.
+
+  (* a key of stype_encoder_dict is acceptable: a parent stype the encoder supports *)
+  Definition key_ok (p : stype * Enc) : bool :=
+    stype_eqb (fst p) (stype_parent (fst p)) && stype_in (fst p) (supported (snd p)).
 
   (* returns the stypes whose encoder gets wired (stats_list etc. assigned),
      or None for the ValueError *)
@@ -159,6 +186,12 @@ Section StypeWiseForward.
   (* tf.stypes: filter(lambda x: x in feat_dict, list(stype)) *)
   Definition tf_stypes {B} (feat_dict : list (stype * B)) : list stype :=
     filter (fun s => match assoc_stype feat_dict s with Some _ => true | None => false end) all_stype.
+
+  (* one stype's share of the output: its names as listed in col_names_dict, and as many
+     columns as names, the ones its encoder returned for them *)
+  Definition part_ok (cnd : list (stype * list string)) (enc : stype -> list string -> option (list A))
+             (s : stype) (p : list A * list string) : Prop :=
+    assoc_stype cnd s = Some (snd p) /\ enc s (snd p) = Some (fst p) /\ List.length (fst p) = List.length (snd p).
 
   (* enc s names = the columns the stype's encoder returns (None: it raised, in
      particular when feat has a different number of columns than col_names) *)
